@@ -15,8 +15,8 @@ import (
 func init() {
 	register("C10", PropCheck{
 		Title:      "Every storage backend behaves as the same keyed map",
-		Explain:    "Agreement clauses, decided for each db.Db implementation of the library (memory, filesystem, Postgres): (R1) every storage mutation in Put is only reached on the true edge of CheckPut(); (R2) baseDb.seal is only ever stored true, and every store to baseDb.lock that can remove a lock is behind the seal==false edge; (R3) Put and Get derive their storage keys from DbBase.ToKey applied to the caller's key, and every path of Get to its not-found return has passed a lookup that uses the Default key (translation-then-default fallback present); (R4) the miss return of every Get is built with db.NewErrNotFound; (R5) the data-type predicates: session prefix exactly for STATE and USERDATA, language suffix exactly for MENU, TEMPLATE and STATICLOAD (constant comparison/mask extracted and evaluated over the DATATYPE_* constants); (R6) every db.Db.Get made by DbResource is preceded by mustSafe(), which panics unless Safe(); (R7) the sticky context setters SetSession/SetPrefix/SetLanguage store their argument on every path (no path keeps the previous context).",
-		NotDecided: "read-your-writes over histories, Dump listing, interleavings of sticky context switches, text versus binary values - value- and history-level; the gdbm backend is not analysable here (cgo header missing) and is outside the property's backend list.",
+		Explain:    "Agreement clauses, decided for each db.Db implementation of the library (memory, filesystem, Postgres): (R1) every storage mutation in Put is only reached on the true edge of CheckPut(); (R2) baseDb.seal is only ever stored true, and every store to baseDb.lock that can remove a lock is behind the seal==false edge; (R3) Put and Get derive their storage keys from DbBase.ToKey applied to the caller's key, and every path of Get to its not-found return has passed a lookup that uses the Default key (translation-then-default fallback present); (R4) the miss return of every Get is built with db.NewErrNotFound; (R5) the data-type predicates: session prefix exactly for STATE and USERDATA, language suffix exactly for MENU, TEMPLATE and STATICLOAD (constant comparison/mask extracted and evaluated over the DATATYPE_* constants); (R6) every db.Db.Get made by DbResource is preceded by mustSafe(), which panics unless Safe(); (R7) the sticky context setters SetSession/SetPrefix/SetLanguage store their argument on every path (no path keeps the previous context); (R9) the filesystem back end's listing examines every directory entry: the listing cursor is only ever assigned the full os.ReadDir result or itself re-sliced from index 1 (added after seeded change C10-C, which seeks into the listing with a binary search over on-disk names).",
+		NotDecided: "read-your-writes over histories, Dump listing beyond the cursor clause R9 (which entries match, their order), interleavings of sticky context switches, text versus binary values - value- and history-level; the gdbm backend is not analysable here (cgo header missing) and is outside the property's backend list.",
 		Run:        runC10,
 	})
 }
@@ -174,6 +174,7 @@ func runC10(w *core.World, r *core.Report) {
 	r.Rule("R6", "DbResource: mustSafe() precedes every db.Get and panics unless Safe()")
 	r.Rule("R7", "SetSession/SetPrefix/SetLanguage store their argument on every path")
 	r.Rule("R8", "memory backend: presence of a key is decided by the map's comma-ok result, never by the value")
+	r.Rule("R9", "filesystem listing: the directory cursor is the full listing and only ever advances by one entry (no entry is skipped unexamined)")
 
 	bes := dbBackends(w, r)
 	r.Floor("R1", "db.Db implementations in the library", len(bes), 3)
@@ -343,18 +344,18 @@ func runC10(w *core.World, r *core.Report) {
 			for _, b := range sk.Blocks {
 				for _, in := range b.Instrs {
 					bo, ok := in.(*ssa.BinOp)
-					if !ok || paramIndex(bo.X) != 1 {
+					if !ok {
 						continue
 					}
-					c, isC := core.ConstInt(bo.Y)
-					if !isC {
+					x0, op0, c, isC := core.CmpConst(bo)
+					if !isC || paramIndex(x0) != 1 {
 						continue
 					}
 					// the true edge must be the one that prepends the session id
 					found = true
 					for n, v := range dt {
 						var t bool
-						switch bo.Op {
+						switch op0 {
 						case token.GTR:
 							t = v > c
 						case token.GEQ:
@@ -469,6 +470,47 @@ func runC10(w *core.World, r *core.Report) {
 			}
 		}
 		_ = nl
+	}
+
+	// ---- R9 -----------------------------------------------------------------------------------
+	// fs Dump: every store to the listing cursor is the os.ReadDir result or the cursor re-sliced
+	// from index 1; the element taken is index 0 (the one the re-slice drops)
+	{
+		n, bad := 0, ""
+		sawFull, sawStep := false, false
+		for _, fn := range w.FuncsIn("db/fs") {
+			for _, in := range allInstrs(fn) {
+				st, ok := in.(*ssa.Store)
+				if !ok {
+					continue
+				}
+				tn, f, ok := core.FieldOfAddr(st.Addr)
+				if !ok || tn != "db/fs.fsDb" || f != "elements" {
+					continue
+				}
+				n++
+				r.Touch(core.QName(fn))
+				okv := false
+				if fromResult(st.Val, 0, "os.ReadDir") {
+					okv, sawFull = true, true
+				}
+				if sl, isSl := core.Strip(st.Val).(*ssa.Slice); isSl && sl.High == nil && sl.Max == nil {
+					if _, f2, ok := core.LoadedField(sl.X); ok && f2 == "elements" {
+						if k, ok := core.ConstInt(sl.Low); ok && k == 1 {
+							okv, sawStep = true, true
+						}
+					}
+				}
+				if core.IsNilConst(st.Val) {
+					okv = true
+				}
+				if !okv {
+					bad = fmt.Sprintf("%s stores something else than the full listing or cursor[1:] at %s", core.QName(fn), w.Pos(st.Pos()))
+				}
+			}
+		}
+		r.Check(bad == "" && sawFull && sawStep, "R9", "db/fs listing cursor: full listing, advanced one entry at a time", token.NoPos, fmt.Sprintf("%d stores: os.ReadDir result or cursor[1:]", n),
+			"the listing can skip directory entries without examining them (a key that exists is not listed): "+bad)
 	}
 }
 
